@@ -15,7 +15,7 @@ import txdbus.client
 from txdbus import message, interface, introspection
 
 ACTIONS = {'EpFail': ('why',), 'EpOk': (), 'AuthOk': (), 'AuthRefused': (), 'HelloOk': (), 'HelloErr': (), 'Close': (), 'Quiet': (),
-           'IssueCall': ('k', 't'), 'ReplyCall': ('k',), 'ExpireCall': ('k',), 'CancelCall': ('k',), 'Register': ('x', 'w'), 'DropProxy': ('x',), 'Unregister': ('x',), 'Reregister': ('x',)}
+           'IssueCall': ('k', 't'), 'ReplyCall': ('k',), 'ExpireCall': ('k',), 'CancelCall': ('k',), 'Register': ('x', 'w'), 'DropProxy': ('x',), 'Unregister': ('x',), 'Reregister': ('x',), 'CloseRetry': ('R',)}
 OBS = ['tried', 'fired', 'nfired', 'call', 'timers', 'ran', 'late']
 KINDS = ['unix:path=/tmp/verif-sock-%d', 'unix:abstract=verif%d', 'tcp:host=h%d.example,port=%d',
          'nonce-tcp:host=n%d.example,port=%d,noncefile=/x']
@@ -152,6 +152,19 @@ class ConnDriver:
         self.proto.connectionLost(self.reason)
         self._after_close = True
         self.closed = True
+
+    def do_CloseRetry(self, R):
+        # the outstanding call that will fail first reacts by issuing the calls in R (half of them with a deadline)
+        first = sorted(k for k in self.calls if hasattr(self, 'serial') and k in self.serial and not self.callres[k])[0]
+
+        def retry(f):
+            for k in sorted(R):
+                self.do_IssueCall(k, k % 2 == 0)
+            return f
+        # in front of the recording errback, so that the retry runs when the call fails
+        d = self.calld[first]
+        d.callbacks.insert(0, ((lambda v: v, (), {}), (retry, (), {})))
+        self.do_Close()
 
     def do_Quiet(self):
         before = (len(self.fired), sum(len(v) for v in self.callres.values()), sum(self.ran.values()))
